@@ -6,6 +6,7 @@
                                                 no assumption relating keys and the wrapped store is left
      partial  C19_sequential_single_handle_partial   the pre-F16 key: requests with Offset = 0 or MaxElements <= 0
      full     C19_read_only_any_handles         any number of handles as long as nothing is written through the wrapper
+     full     C19_one_handle_per_graph          any number of handles, reads and writes, at most one handle per graph
      full     C19_no_overlap_answers_current / C19_no_overlap_linearizable
                                                 small-step model, one shared handle, any number of threads, every
                                                 interleaving in which no read overlaps a write
@@ -124,6 +125,37 @@ Proof.
   exact (proj1 R).
 Qed.
 Print Assumptions C19_read_only_any_handles.
+
+(* any number of handles, at most one per graph, reads and writes in any order: needs the wrapped store's graphs to
+   be independent (a write to one graph changes no lookup on another).  So the second-handle defect below needs two
+   handles OF THE SAME GRAPH. *)
+Theorem C19_one_handle_per_graph :
+  forall (istate gid wreq query elem err K : Type)
+         (is_exist : query -> bool) (key : query -> K) (K_eqb : K -> K -> bool)
+         (inner_step : istate -> gid -> @req wreq query -> istate * @answer elem err)
+         (D : query -> bool),
+    (forall a b, K_eqb a b = true <-> a = b) ->
+    (forall s g q, fst (inner_step s g (Read q)) = s) ->
+    (forall s g q1 q2, D q1 = true -> D q2 = true -> key q1 = key q2 -> is_exist q1 = is_exist q2 ->
+                       snd (inner_step s g (Read q1)) = snd (inner_step s g (Read q2))) ->
+    (forall s g q l e, D q = true -> snd (inner_step s g (Read q)) = AList l (Some e) -> l = []) ->
+    (forall s g w g' q, g <> g' -> snd (inner_step (fst (inner_step s g (Write w))) g' (Read q))
+                                   = snd (inner_step s g' (Read q))) ->
+    forall (s : istate) (ops : list (@hop gid wreq query)),
+      NoDup (opens gid wreq query ops) ->
+      Forall (fun o => match o with HDo _ (Read q) => D q = true | _ => True end) ops ->
+      snd (memo_run istate gid wreq query elem err K is_exist key K_eqb inner_step (init_m s) ops)
+      = snd (ref_run istate gid wreq query elem err inner_step (init_r s) ops).
+Proof.
+  intros istate gid wreq query elem err K is_exist key K_eqb inner_step D HK Hp Hk He Hf s ops H1 H2.
+  pose proof (distinct_graphs_run istate gid wreq query elem err K is_exist key K_eqb HK inner_step D Hp Hk He Hf ops s []
+                (fun h Hin => match Hin with end) H1 H2) as R.
+  unfold init_m, init_r. cbn [map] in R.
+  destruct (memo_run istate gid wreq query elem err K is_exist key K_eqb inner_step (mkM s []) ops).
+  destruct (ref_run istate gid wreq query elem err inner_step (mkR s []) ops).
+  exact (proj1 R).
+Qed.
+Print Assumptions C19_one_handle_per_graph.
 
 (* ------------------------------------------------------------------------------------------------ interleavings *)
 (* Small-step model (Memo.step): threads share ONE handle; a schedule is any sequence of thread numbers; Memo.run_log
